@@ -239,6 +239,72 @@ func componentReply(name, note, header, reply string) *handshake {
 	}}
 }
 
+// Voluntary features that restart the stream ("layers": a compression-like
+// feature, STARTTLS offered without <required/>): a features list with no
+// required feature from which a restarting feature is negotiated.  The rest of
+// the handshake — new headers, the second features list — is as much part of
+// establishment as the first stream.  cut: the peer hangs up right after the
+// layer feature's own exchange (the fault lies in the restarted stream).
+const nsL = "urn:verif:c04:layer"
+
+func featL() xmpp.StreamFeature {
+	return hspeer.Custom(hspeer.CustomCfg{NS: nsL, Local: "layer", Req: false, Prohibited: xmpp.Secure, OKMask: xmpp.Secure, Restart: true})
+}
+
+func layerHandshake(ws, recv, cut bool) *handshake {
+	name := "layer"
+	if cut {
+		name = "layer-cut"
+	}
+	if recv {
+		name += "-recv"
+	} else {
+		name += "-init"
+	}
+	if ws {
+		name = "ws-" + name
+	}
+	expect, note := "ok", ""
+	if cut {
+		expect, note = "refused", "the peer hangs up right after the voluntary layer feature was negotiated, before the restarted stream"
+	}
+	return &handshake{Name: name, Role: map[bool]string{true: "recv", false: "init"}[recv], Expect: expect, Note: note, New: func() *attempt {
+		a := &attempt{}
+		var steps []hspeer.Step
+		if !recv {
+			steps = []hspeer.Step{
+				{Want: []string{first(ws)}, Reply: hspeer.Say(srvHeader(ws, "s1") + hspeer.Features(ws, hspeer.Advert(nsL, "layer", false)))},
+				{Want: []string{"select"}, Reply: hspeer.Say(hspeer.El(nsL, "ok"))},
+				{Want: []string{first(ws)}, Reply: hspeer.Say(srvHeader(ws, "s2") + hspeer.Features(ws, ""))},
+			}
+			if cut {
+				steps = steps[:2]
+			}
+			a.call = func(ctx context.Context, conn io.ReadWriter, log *hspeer.Log) (*xmpp.Session, error) {
+				fs := hspeer.InstrumentAll(log, featL())
+				return xmpp.NewSession(ctx, serverJID, clientJID, conn, 0, negotiatorFor(ws, fs))
+			}
+		} else {
+			steps = []hspeer.Step{
+				{Want: nil, Reply: hspeer.Say(cliHeader(ws))},
+				{Want: []string{first(ws), "features"}, Reply: hspeer.Say(hspeer.El(nsL, "select"))},
+				{Want: []string{"ok"}, Reply: hspeer.Say(cliHeader(ws))},
+				{Want: []string{first(ws), "features"}, Reply: hspeer.Say(hspeer.El(nsM, "select"))},
+			}
+			if cut {
+				steps = steps[:2]
+			}
+			a.call = func(ctx context.Context, conn io.ReadWriter, log *hspeer.Log) (*xmpp.Session, error) {
+				m := hspeer.Custom(hspeer.CustomCfg{NS: nsM, Local: "m", Req: true, Necessary: xmpp.Secure, OKMask: xmpp.Ready})
+				fs := hspeer.InstrumentAll(log, featL(), m)
+				return xmpp.ReceiveSession(ctx, conn, 0, negotiatorFor(ws, fs))
+			}
+		}
+		a.peer = hspeer.NewPeer(steps...)
+		return a
+	}}
+}
+
 func refusalHandshakes() []*handshake {
 	bindEl := `<bind xmlns='` + hspeer.NSBind + `'`
 	iq := func(typ, id, body string) string {
@@ -253,6 +319,8 @@ func refusalHandshakes() []*handshake {
 	std := func() xmpp.StreamFeature { return xmpp.BindResource() }
 	hs := []*handshake{
 		saslOnlyInit(false), saslOnlyInit(true),
+		layerHandshake(false, false, false), layerHandshake(true, false, false), layerHandshake(false, true, false), layerHandshake(true, true, false),
+		layerHandshake(false, false, true), layerHandshake(false, true, true), layerHandshake(true, false, true),
 		saslChal(false, false), saslChal(true, false), saslChal(false, true), saslChal(true, true),
 
 		// --- bind, initiating side
